@@ -299,7 +299,11 @@ def step (s : State) (te : TEv) : R State :=
   | .flag i _ il tok _ => stepFlag s i il tok
   | .api n i (.stopctx del _ _ _) =>
     match s.insts i with
-    | some x => pure (s.setInst { (x.halt) with stopDel := if del then some n else x.stopDel, stopOwner := if del then x.lead.isSome else x.stopOwner })
+    | some x =>
+      -- (a second stop call issued while one with DeleteKey is in progress finds the election stopped and does nothing:
+      --  the window stays the first call's)
+      if del ∧ x.stopDel.isNone then pure (s.setInst { (x.halt) with stopDel := some n, stopOwner := x.lead.isSome })
+      else pure (s.setInst x.halt)
     | none => pure s
   | .api _ i .stop | .cancelCtx i =>
     match s.insts i with
